@@ -16,6 +16,7 @@ pub fn read_frame_header(mut r: impl Read) -> Result<(FrameHeader, u8), ReadFram
         r.read_exact(&mut buf)
             .map_err(err::FrameDescriptorReadError)?;
         let skip_size = u32::from_le_bytes(buf);
+        vhit!(fh_skippable);
         return Err(ReadFrameHeaderError::SkipFrame {
             magic_number: magic_num,
             length: skip_size,
@@ -79,6 +80,32 @@ pub fn read_frame_header(mut r: impl Read) -> Result<(FrameHeader, u8), ReadFram
             fcs += 256;
         }
         frame_header.frame_content_size = fcs;
+    }
+
+    #[cfg(feature = "verif_hooks")]
+    {
+        use crate::verif::{hit, Feat};
+        if desc.single_segment_flag() {
+            hit(Feat::fh_single_segment);
+        } else {
+            hit(Feat::fh_window_descriptor);
+        }
+        if desc.content_checksum_flag() {
+            hit(Feat::fh_checksum);
+        }
+        match dict_id_len {
+            1 => hit(Feat::fh_dict_id_1),
+            2 => hit(Feat::fh_dict_id_2),
+            4 => hit(Feat::fh_dict_id_4),
+            _ => {}
+        }
+        match fcs_len {
+            1 => hit(Feat::fh_fcs_1),
+            2 => hit(Feat::fh_fcs_2),
+            4 => hit(Feat::fh_fcs_4),
+            8 => hit(Feat::fh_fcs_8),
+            _ => {}
+        }
     }
 
     Ok((frame_header, bytes_read as u8))
@@ -237,5 +264,13 @@ impl FrameDescriptor {
             3 => Ok(4),
             other => Err(FrameDescriptorError::InvalidFrameContentSizeFlag { got: other }),
         }
+    }
+}
+
+#[cfg(feature = "verif_hooks")]
+impl FrameHeader {
+    /// Verification hook: the raw window descriptor byte
+    pub fn verif_window_descriptor(&self) -> u8 {
+        self.window_descriptor
     }
 }
